@@ -141,3 +141,74 @@ Definition run_slice (t : list Z) : list Z :=
     else srun slist_step (fun l => l) ops []
   | _ => []
   end.
+
+(* ---------- EList.__setitem__ with a slice, notifications included (valuecontainer.py EList.__setitem__) ----------
+   for a feature without opposite and without containment (attributes, plain references): every new value is
+   checked first (BadValueError before anything is touched), the replaced elements are reported (REMOVE for one,
+   REMOVE_MANY for several, nothing for none), the list is assigned, the new values are reported (ADD for one,
+   ADD_MANY for several, and for NONE an ADD whose payload is the empty list itself: NAddEmpty). *)
+Inductive snotif : Type :=
+| NRemove (x : Z)
+| NRemoveMany (xs : list Z)
+| NAdd (x : Z)
+| NAddMany (xs : list Z)
+| NAddEmpty.
+
+Definition elist_setslice (ok : Z -> bool) (a b : option Z) (ys l : list Z) : res (list Z * list snotif) :=
+  if forallb ok ys then
+    let old := py_getslice a b l in
+    Ok (py_setslice a b ys l,
+        (match old with [] => [] | [x] => [NRemove x] | _ => [NRemoveMany old] end) ++
+        (match ys with [] => [NAddEmpty] | [y] => [NAdd y] | _ => [NAddMany ys] end))
+  else Err BadValue.
+
+(* the observer of C05: REMOVE / REMOVE_MANY delete (one occurrence each), ADD / ADD_MANY insert;
+   None = it was told something it cannot apply (an absent element, a payload that is no element) *)
+Fixpoint remove_each (xs l : list Z) : option (list Z) :=
+  match xs with
+  | [] => Some l
+  | x :: xs' => match remove_first Z.eqb x l with Some l' => remove_each xs' l' | None => None end
+  end.
+
+Definition mirror1 (m : list Z) (n : snotif) : option (list Z) :=
+  match n with
+  | NRemove x => remove_first Z.eqb x m
+  | NRemoveMany xs => remove_each xs m
+  | NAdd x => Some (m ++ [x])
+  | NAddMany xs => Some (m ++ xs)
+  | NAddEmpty => None
+  end.
+
+Fixpoint mirror (m : list Z) (ns : list snotif) : option (list Z) :=
+  match ns with
+  | [] => Some m
+  | n :: ns' => match mirror1 m n with Some m' => mirror m' ns' | None => None end
+  end.
+
+Definition BAD_TOK : Z := -77777.
+
+Definition notif_toks (n : snotif) : list Z :=
+  match n with
+  | NRemove x => [1; 1; x]
+  | NRemoveMany xs => [2; zlen xs] ++ xs
+  | NAdd x => [3; 1; x]
+  | NAddMany xs => [4; zlen xs] ++ xs
+  | NAddEmpty => [5; 0]
+  end.
+
+(* tokens: pa va pb vb |ys| ys.. |l| l..   ->   code |l'| l'.. |notifs| (kind n elems..).. ; the value BAD_TOK is ill-typed *)
+Definition run_slicenotif (t : list Z) : list Z :=
+  match t with
+  | pa :: va :: pb :: vb :: ny :: rest =>
+    let ys := take (Z.to_nat ny) rest in
+    match drop (Z.to_nat ny) rest with
+    | nl :: rest' =>
+      let l := take (Z.to_nat nl) rest' in
+      match elist_setslice (fun x => negb (x =? BAD_TOK)) (bound pa va) (bound pb vb) ys l with
+      | Ok (l', ns) => [0; zlen l'] ++ l' ++ [zlen ns] ++ flat_map notif_toks ns
+      | Err e => [exn_code e]
+      end
+    | [] => []
+    end
+  | _ => []
+  end.
